@@ -94,7 +94,7 @@ impl ConfigSpec
     }
 }
 
-pub const MACRO_NAMES: &[&str] = &["info", "warn", "error", "debug", "trace", "info2", "infos", "xinfo", "log_it", "my_info", "_w"];
+pub const MACRO_NAMES: &[&str] = &["info", "warn", "error", "debug", "trace", "info2", "infos", "xinfo", "log_it", "my_info", "_w", "élog", "警告", "𠮷w"];
 pub const MODULES: &[&str] = &["log", "tracing", "my::logger", "a::b::c", "slog", "crate::util::log"];
 
 /// 1..=4 configured macros with distinct names.
@@ -272,6 +272,9 @@ pub const GAPS: &[&str] = &[
     "\r\n    ",
     "\n\n        ",
     " /* a\n b */ ",
+    " /* x, y; z */ ",
+    " // note, more; end\n    ",
+    "/* \"q\" ( */",
 ];
 /// gap index that is a plain single space
 pub const GAP_SPACE: usize = 1;
@@ -294,6 +297,8 @@ pub const BEFORE: &[&str] = &[
     "unsafe { ",
     "é(); ",
     "let s = \"q\\\"\"; ",
+    "𠮷!(z); ",
+    "日本(); ",
 ];
 pub const AFTER: &[&str] = &[";", "", ",", " }", "; // done", " ; /* end */"];
 
